@@ -278,37 +278,52 @@ func needSep(a, b Token) bool {
 }
 
 func (n *Neutral) wsRemove(t *rapid.T, f *File, adjOnly bool) (string, EditDesc, bool) {
-	var sites []int
+	type site struct {
+		i     int
+		class string
+	}
+	var sites []site
 	for i := 1; i < len(f.Toks); i++ {
-		if f.Toks[i-1].End == f.Toks[i].Off {
+		a, b := f.Toks[i-1], f.Toks[i]
+		if a.End == b.Off {
 			continue
 		}
-		adj := f.Toks[i-1].Tmpl == -1 && (f.Toks[i].Tmpl == -1 || f.Toks[i].Text == "=")
-		if adjOnly && !adj {
+		class := "ws.remove"
+		if a.Tmpl == -1 && b.Tmpl == -1 {
+			class = "adj.merge.gtgt"
+			if f.text(i-2) == "," {
+				class = "comma.tmpl.nested" // yields ",>>"
+			}
+		} else if a.Tmpl == -1 && b.Text == "=" {
+			class = "adj.merge.gteq"
+			if o := f.Info[i-1].Match; f.Structured && o > 0 && f.text(o-1) == "array" && f.Toks[i-2].Tmpl != -1 {
+				class = "adj.merge.gteq.array"
+			}
+		}
+		if adjOnly && class == "ws.remove" {
 			continue
 		}
-		sites = append(sites, i)
+		sites = append(sites, site{i, class})
+	}
+	if adjOnly {
+		// the veto is asked per site so that an excluded sub-class does not starve the others
+		kept := sites[:0]
+		for _, s := range sites {
+			if !n.skipped(s.class) {
+				kept = append(kept, s)
+			}
+		}
+		sites = kept
 	}
 	if len(sites) == 0 {
 		return "", EditDesc{}, false
 	}
-	i := sites[rapid.IntRange(0, len(sites)-1).Draw(t, "site")]
-	a, b := f.Toks[i-1], f.Toks[i]
-	class := "ws.remove"
-	if a.Tmpl == -1 && b.Tmpl == -1 {
-		class = "adj.merge.gtgt"
-		if f.text(i-2) == "," {
-			class = "comma.tmpl.nested" // yields ",>>"
-		}
-	} else if a.Tmpl == -1 && b.Text == "=" {
-		class = "adj.merge.gteq"
-		if o := f.Info[i-1].Match; o > 0 && f.text(o-1) == "array" && f.Toks[i-2].Tmpl != -1 {
-			class = "adj.merge.gteq.array"
-		}
-	}
+	s := sites[rapid.IntRange(0, len(sites)-1).Draw(t, "site")]
+	i, class := s.i, s.class
 	if n.skipped(class) {
 		return "", EditDesc{}, false
 	}
+	a, b := f.Toks[i-1], f.Toks[i]
 	sep := ""
 	if needSep(a, b) {
 		sep = " "
@@ -692,7 +707,7 @@ type commaSite struct {
 
 func tmplClass(gen string) string {
 	switch {
-	case gen == "array", gen == "var", gen == "ptr", gen == "bitcast", gen == "atomic", gen == "binding_array":
+	case gen == "array", gen == "var", gen == "ptr", gen == "bitcast", gen == "atomic":
 		return gen
 	case strings.HasPrefix(gen, "vec"):
 		return "vec"
@@ -701,7 +716,7 @@ func tmplClass(gen string) string {
 	case strings.HasPrefix(gen, "texture_"):
 		return "texture"
 	}
-	return "other"
+	return "" // not a template generator of the WGSL specification (binding_array, ray_query ...): left alone
 }
 
 func (f *File) commaSites() []commaSite {
@@ -736,6 +751,9 @@ func (f *File) commaSites() []commaSite {
 			}
 		case t.Tmpl == 1:
 			cl := f.Info[i].Match
+			if tmplClass(f.text(i-1)) == "" {
+				continue
+			}
 			if cl+1 < len(f.Toks) && f.Toks[cl+1].Tmpl == -1 && f.Toks[cl].End == f.Toks[cl+1].Off {
 				add(i, "comma.tmpl.nested", true) // yields ",>>"
 			} else {
@@ -746,7 +764,9 @@ func (f *File) commaSites() []commaSite {
 			if p < 0 {
 				continue
 			}
-			if f.Toks[p].Tmpl == -1 || f.Toks[p].Kind == Ident && f.Info[p].Role == RoleUse {
+			if f.Toks[p].Tmpl == -1 && f.text(f.Info[p].Match-1) == "bitcast" {
+				add(i, "comma.call.bitcast", true)
+			} else if f.Toks[p].Tmpl == -1 || f.Toks[p].Kind == Ident && f.Info[p].Role == RoleUse {
 				add(i, "comma.call", true)
 			}
 		case t.Kind == Keyword && t.Text == "case" && f.Info[i].Block > 0:
